@@ -10,6 +10,10 @@ def extract_all():
     gen.extract()
     from . import pyc
     pyc.extract()
+    from . import memo
+    memo.extract()
+    from . import infer
+    infer.extract()
     from . import conf
     try:
         conf.extract()
